@@ -275,7 +275,7 @@ func (e *Exec) enabledOp(t *thread) bool {
 }
 
 func (e *Exec) pollForeign(st *chanState) {
-	if !st.foreign || st.closed {
+	if !st.foreign || st.closed || st.ref.Type().ChanDir()&reflect.RecvDir == 0 {
 		return
 	}
 	i, _, ok := reflect.Select([]reflect.SelectCase{{Dir: reflect.SelectRecv, Chan: st.ref}, {Dir: reflect.SelectDefault}})
